@@ -474,6 +474,10 @@ class World(object):
                         osid = str(owner).split("/")[0] if owner else None
                         w.fault_fired.append((k, name, arg, owner, w.attempt.get(osid, 1)))
                         w.events.append(("hook-raised", name, arg))
+                        if w.opts.get("fault_kbd") and "all" not in name and w.sx.bool("fault_is_kbd:%d" % len(w.fault_fired)):
+                            # the user presses Ctrl-C while a hook runs: not an Exception, the run is aborted
+                            w.events.append(("kbdint", name, arg))
+                            raise KeyboardInterrupt()
                         if w.sx.bool("fault_is_assert:%d" % len(w.fault_fired)):
                             raise AssertionError("hook fault %s%s" % (name, w.opts.get("fault_message", "")))
                         raise RuntimeError("hook fault %s%s" % (name, w.opts.get("fault_message", "")))
@@ -493,6 +497,9 @@ class World(object):
             try:
                 self.verdict = self.runner.run_model()
             except Exception as e:      # an exception escaping run_model is itself an observation
+                self.escaped = e
+                self.verdict = None
+            except KeyboardInterrupt as e:      # (only ever raised by the harness' own hooks/steps)
                 self.escaped = e
                 self.verdict = None
         self.stdout = buf.getvalue()
